@@ -14,14 +14,15 @@ def _init(bin_path, bin_release, opts):
 
 
 def _job(item):
-    name, skel = item
+    name, skel = item[0], item[1]
+    variant = item[2] if len(item) > 2 else None
     nat = _W["native"]
     o = _W["opts"]
     ck = driver.SkeletonChecker(nat, max_steps=o["max_steps"], max_paths=o["max_paths"], pattern_limit=o["pattern_limit"],
                                 solver_timeout_ms=o["solver_timeout_ms"], skeleton_budget_s=o["skeleton_budget_s"])
     t0 = time.time()
     try:
-        fs = ck.check(skel)
+        fs = ck.check(skel) if variant is None else driver.check_pair(ck, skel, variant)
     except Exception as e:  # machinery failure: reported, never a pass
         import traceback
         return {"name": name, "skel": skel, "error": "%r\n%s" % (e, traceback.format_exc()[-1500:]), "stats": ck.stats, "findings": [], "samples": []}
@@ -35,7 +36,10 @@ def _job(item):
         if len(out) >= 6:
             break
         try:
-            driver.confirm(nat, f, profiles=("dev", "release"))
+            if variant is None:
+                driver.confirm(nat, f, profiles=("dev", "release"))
+            else:
+                driver.confirm_pair(nat, f)
         except Exception as e:
             f.confirmed = None
             f.native = {"why": ["replay failed: %r" % e]}
